@@ -7,6 +7,7 @@ mod core;
 mod gen;
 mod gspec;
 mod model;
+mod grammar_text;
 mod props;
 mod rtree;
 mod run;
